@@ -1,5 +1,7 @@
 import MesaModel.Model.Legacy
 import MesaModel.Model.LegacyNbhd
+import MesaModel.Model.LegacySelect
+import MesaModel.Model.LegacyPlaceRaw
 /-!
 Line-protocol driver for the legacy-grid model (C08, C09, C18-legacy).  One output line per input line.
 Producer: harness/legacy_common.py.
@@ -8,11 +10,15 @@ Producer: harness/legacy_common.py.
   scenario net N NAGENTS M a1 b1 … aM bM                                            reset (NetworkGrid)
 
 grid ops (agents are 0..NAGENTS-1; `:` introduces the script of raw random draws)
-  place a x y | remove a | move a x y | swap a b | mte a : r… |
+  place a x y (any ints: Python indexing, no wrapping) | remove a | move a x y | swap a b | mte a [R<k>] : r… (R<k>: empties set reordered) |
   mto a random|closest|other none|warning|error K x1 y1 … xK yK : r…
   empties | exists | isempty x y (any ints: Python indexing) | mask | agents | iter | get x y | dump
   geti x (grid[x]) | getl K x1 y1 … (grid[(x1,y1),…]) | gets IX IY (grid[ix, iy]; IX/IY = I<int> or S<start>/<stop>/<step>, _ = None)
-  tadj x y (torus_adj) | oob x y (out_of_bounds)
+  tadj x y (torus_adj) | oob x y (out_of_bounds) | coorditer (coord_iter(): x,y=content for every cell, in order)
+  lset L x y v   (properties[name_L].set_cell((x, y), v); layers 0, 1 exist iff LAYERS = 1; any ints: numpy indexing)
+  sel RL OE NM mask… NC cond… NE ext…   select_cells(masks, only_empty=OE, conditions, extreme_values, return_list=RL)
+      mask = N/x/y/MOORE/IC/R (get_neighborhood_mask(…), computed left to right through the cache) | B/<bits> (an explicit array)
+      cond = L/ge|le|eq|ne/k (lambda d: d >= k …) | ext = L/highest|lowest|<other>; layer names are distinct within a dict
   foreign a x y   (outside the quantifier: another grid of the same shape places the unplaced agent a, i.e. writes its pos)
   nbhd|inbhd x y MOORE IC R | nbrs|inbrs x y MOORE IC R | nmask x y MOORE IC R | clc|iclc K x1 y1 …
   hnbhd|ihnbhd x y IC R | hnbrs|ihnbrs x y IC R
@@ -72,7 +78,7 @@ def ix? (s : String) : Option Grid.Ix :=
 
 inductive St where
   | none
-  | grid (g : Grid) (hex : Bool) (nag : Nat) (nc : NCache) (hc : HCache)
+  | grid (g : Grid) (hex : Bool) (nag : Nat) (nc : NCache) (hc : HCache) (ls : Layers)
   | net (t : Net) (nag : Nat)
 
 def dumpGrid (g : Grid) (nag : Nat) : String :=
@@ -88,10 +94,78 @@ def sel? (s : String) : Grid.Selection :=
 def he? (s : String) : Option Grid.HandleEmpty :=
   if s = "none" then some .none else if s = "warning" then some .warning else if s = "error" then some .error else Option.none
 
-def gridLine (g : Grid) (hex : Bool) (nag : Nat) (nc : NCache) (hc : HCache) (ws : List String) : St × String :=
-  let keep := St.grid g hex nag nc hc
+/-- one mask argument of `sel` -/
+inductive MaskSpec where
+  | nbhd (k : NKey)
+  | bits (b : List Bool)
+
+def maskSpec? (ncells : Nat) (s : String) : Option MaskSpec :=
+  match s.splitOn "/" with
+  | ["N", x, y, m, ic, r] =>
+    match x.toInt?, y.toInt?, bool? m, bool? ic, r.toNat? with
+    | some x, some y, some m, some ic, some r => some (.nbhd { pos := (x, y), moore := m, ic := ic, r := r })
+    | _, _, _, _, _ => none
+  | ["B", b] =>
+    let bs := b.toList
+    if bs.length = ncells && bs.all (fun c => c = '0' || c = '1') then some (.bits (bs.map (· = '1'))) else none
+  | _ => none
+
+def cond? (s : String) : Option Cond :=
+  match s.splitOn "/" with
+  | [l, c, k] =>
+    let cmp : Option Cmp := if c = "ge" then some .ge else if c = "le" then some .le else if c = "eq" then some .eq
+      else if c = "ne" then some .ne else none
+    match l.toNat?, cmp, k.toInt? with
+    | some l, some cmp, some k => some { layer := l, cmp := cmp, k := k }
+    | _, _, _ => none
+  | _ => none
+
+def ext? (s : String) : Option Extreme :=
+  match s.splitOn "/" with
+  | [l, m] =>
+    match l.toNat? with
+    | some l => some { layer := l, mode := if m = "highest" then .highest else if m = "lowest" then .lowest else .other }
+    | none => none
+  | _ => none
+
+/-- `k` items, then the rest -/
+def takeN (ws : List String) : Option (List String × List String) :=
+  match ws with
+  | k :: rest =>
+    match k.toNat? with
+    | some k => if k ≤ rest.length then some (rest.take k, rest.drop k) else none
+    | none => none
+  | [] => none
+
+/-- an explicit mask given cell by cell in `allCells` order -/
+def bitsMask (g : Grid) (b : List Bool) : CMask := fun c =>
+  match (g.allCells.zip b).lookup c with
+  | some v => v
+  | none => false
+
+/-- the masks of a `sel` line, built left to right (each `get_neighborhood_mask` goes through the cache; on a hex class it
+    raises TypeError) -/
+def buildMasks (g : Grid) (hex : Bool) : NCache → List MaskSpec → NCache × Except Err (List CMask)
+  | nc, [] => (nc, .ok [])
+  | nc, .bits b :: rest =>
+    match buildMasks g hex nc rest with
+    | (nc', .ok ms) => (nc', .ok (bitsMask g b :: ms))
+    | (nc', .error e) => (nc', .error e)
+  | nc, .nbhd k :: rest =>
+    if hex then (nc, .error .type) else
+    match getNbhd g.dim nc k with
+    | (nc1, .error e) => (nc1, .error e)
+    | (nc1, .ok cells) =>
+      match buildMasks g hex nc1 rest with
+      | (nc', .ok ms) => (nc', .ok (nbhdMask cells :: ms))
+      | (nc', .error e) => (nc', .error e)
+
+def distinctLayers (l : List Nat) : Bool := l.eraseDups.length = l.length
+
+def gridLine (g : Grid) (hex : Bool) (nag : Nat) (nc : NCache) (hc : HCache) (ls : Layers) (ws : List String) : St × String :=
+  let keep := St.grid g hex nag nc hc ls
   let bad : St × String := (keep, "bad-op")
-  let upd (r : Grid × Res) : St × String := (St.grid r.1 hex nag nc hc, fmtRes r.2)
+  let upd (r : Grid × Res) : St × String := (St.grid r.1 hex nag nc hc ls, fmtRes r.2)
   let okA (a : Nat) : Bool := a < nag
   let clc (k : String) (rest : List String) : St × String :=
     match k.toNat?, (ints? rest).bind pairs with
@@ -109,7 +183,7 @@ def gridLine (g : Grid) (hex : Bool) (nag : Nat) (nc : NCache) (hc : HCache) (ws
   match ws with
   | ["place", a, x, y] =>
     match a.toNat?, x.toInt?, y.toInt? with
-    | some a, some x, some y => if okA a && inGridB g (x, y) then upd (g.place a (x, y)) else bad
+    | some a, some x, some y => if okA a then upd (g.placeRaw a (x, y)) else bad   -- any ints: IndexError beyond, aliasing in -size..-1
     | _, _, _ => bad
   | ["remove", a] =>
     match a.toNat? with
@@ -118,7 +192,7 @@ def gridLine (g : Grid) (hex : Bool) (nag : Nat) (nc : NCache) (hc : HCache) (ws
   | ["foreign", a, x, y] =>
     match a.toNat?, x.toInt?, y.toInt? with
     | some a, some x, some y =>
-      if okA a && inGridB g (x, y) && (g.pos a).isNone then (St.grid (g.foreignPos a (x, y)) hex nag nc hc, "ok") else bad
+      if okA a && inGridB g (x, y) && (g.pos a).isNone then (St.grid (g.foreignPos a (x, y)) hex nag nc hc ls, "ok") else bad
     | _, _, _ => bad
   | ["move", a, x, y] =>
     match a.toNat?, x.toInt?, y.toInt? with
@@ -132,6 +206,12 @@ def gridLine (g : Grid) (hex : Bool) (nag : Nat) (nc : NCache) (hc : HCache) (ws
     match a.toNat?, nats? rest with
     | some a, some s => if okA a then upd (g.moveToEmpty a s) else bad
     | _, _ => bad
+  | "mte" :: a :: rot :: ":" :: rest =>
+    -- `mte a R<k>`: the implementation's empties set iterates in another order; the pick does not depend on it
+    -- (C01_legacy_move_to_empty_pick_order_independent, C01_legacy_move_to_empty_is_the_model)
+    match a.toNat?, (if rot.startsWith "R" then (rot.drop 1).toString.toNat? else none), nats? rest with
+    | some a, some _, some s => if okA a then upd (g.moveToEmpty a s) else bad
+    | _, _, _ => bad
   | "mto" :: a :: sel :: he :: k :: rest =>
     match a.toNat?, he? he, k.toNat?, splitScript rest with
     | some a, some he, some k, some (cs, sc) =>
@@ -139,8 +219,8 @@ def gridLine (g : Grid) (hex : Bool) (nag : Nat) (nc : NCache) (hc : HCache) (ws
       | some ps, some s => if okA a && ps.length = k then upd (g.moveToOneOf a ps (sel? sel) he s) else bad
       | _, _ => bad
     | _, _, _, _ => bad
-  | ["empties"] => let r := g.readEmpties; (St.grid r.1 hex nag nc hc, sp (fmtCoords r.2))
-  | ["exists"] => let r := g.existsEmpty; (St.grid r.1 hex nag nc hc, if r.2 then "ok 1" else "ok 0")
+  | ["empties"] => let r := g.readEmpties; (St.grid r.1 hex nag nc hc ls, sp (fmtCoords r.2))
+  | ["exists"] => let r := g.existsEmpty; (St.grid r.1 hex nag nc hc ls, if r.2 then "ok 1" else "ok 0")
   | ["isempty", x, y] =>
     match x.toInt?, y.toInt? with
     | some x, some y =>
@@ -182,6 +262,40 @@ def gridLine (g : Grid) (hex : Bool) (nag : Nat) (nc : NCache) (hc : HCache) (ws
       | .error e => (keep, fmtErr e)
     | _, _ => bad
   | ["dump"] => (keep, dumpGrid g nag)
+  | ["coorditer"] => (keep, sp (" ".intercalate (g.coordIter.map fun e => fmtCoord e.2 ++ "=" ++ fmtCell e.1)))
+  | ["lset", l, x, y, v] =>
+    match l.toNat?, x.toInt?, y.toInt?, v.toInt? with
+    | some l, some x, some y, some v =>
+      let r := g.layerSet ls l (x, y) v
+      (St.grid g hex nag nc hc r.1, fmtRes r.2)
+    | _, _, _, _ => bad
+  | "sel" :: rl :: oe :: rest =>
+    match bool? rl, bool? oe, takeN rest with
+    | some rl, some oe, some (mws, rest1) =>
+      match takeN rest1 with
+      | some (cws, rest2) =>
+        match takeN rest2 with
+        | some (ews, []) =>
+          match mws.mapM (maskSpec? g.allCells.length), cws.mapM cond?, ews.mapM ext? with
+          | some mss, some conds, some exts =>
+            if !(distinctLayers (conds.map (·.layer)) && distinctLayers (exts.map (·.layer))) then bad else
+            let (nc', ms) := buildMasks g hex nc mss
+            let st := St.grid g hex nag nc' hc ls
+            match ms with
+            | .error e => (st, fmtErr e)
+            | .ok masks =>
+              if rl then
+                match g.selectCells ls masks oe conds exts with
+                | .ok cells => (st, sp (fmtCoords cells))
+                | .error e => (st, fmtErr e)
+              else
+                match g.selectMask ls masks oe conds exts with
+                | .ok m => (st, sp (fmtBits (g.allCells.map m)))
+                | .error e => (st, fmtErr e)
+          | _, _, _ => bad
+        | _ => bad
+      | none => bad
+    | _, _, _ => bad
   | "clc" :: k :: rest => clc k rest
   | "iclc" :: k :: rest => clc k rest
   | [op, x, y, m, ic, r] =>
@@ -192,7 +306,7 @@ def gridLine (g : Grid) (hex : Bool) (nag : Nat) (nc : NCache) (hc : HCache) (ws
     | some x, some y, some m, some ic, some r =>
       if op = "nbhd" || op = "inbhd" || op = "nbrs" || op = "inbrs" || op = "nmask" then
         let (nc', res) := getNbhd g.dim nc { pos := (x, y), moore := m, ic := ic, r := r }
-        let st := St.grid g hex nag nc' hc
+        let st := St.grid g hex nag nc' hc ls
         match res with
         | .error e => (st, fmtErr e)
         | .ok cells =>
@@ -207,7 +321,7 @@ def gridLine (g : Grid) (hex : Bool) (nag : Nat) (nc : NCache) (hc : HCache) (ws
     | some x, some y, some ic, some r =>
       if op = "hnbhd" || op = "ihnbhd" || op = "hnbrs" || op = "ihnbrs" then
         let (hc', cells) := getHexNbhd g.dim hc { pos := (x, y), ic := ic, r := r }
-        let st := St.grid g hex nag nc hc'
+        let st := St.grid g hex nag nc hc' ls
         if op = "hnbhd" || op = "ihnbhd" then (st, sp (fmtCoords cells))
         else match hexNeighbors g cells with
           | .ok l => (st, sp (fmtIds l))
@@ -281,8 +395,8 @@ def stepLine (st : St) (ws : List String) : St × String :=
       if kind = "single" then some (false, false) else if kind = "multi" then some (true, false)
       else if kind = "hexsingle" then some (false, true) else if kind = "hexmulti" then some (true, true) else none
     match km, w.toNat?, h.toNat?, bool? torus, bool? layers, cutoff.toNat?, nag.toNat? with
-    | some (multi, hex), some w, some h, some torus, some _, some cutoff, some nag =>
-      if w ≥ 1 && h ≥ 1 then (St.grid (init w h torus multi cutoff) hex nag [] [], "ok") else (st, "bad-op")
+    | some (multi, hex), some w, some h, some torus, some layers, some cutoff, some nag =>
+      if w ≥ 1 && h ≥ 1 then (St.grid (init w h torus multi cutoff) hex nag [] [] (Layers.init (if layers then 2 else 0)), "ok") else (st, "bad-op")
     | _, _, _, _, _, _, _ => (st, "bad-op")
   | "scenario" :: "net" :: n :: nag :: m :: rest =>
     match n.toNat?, nag.toNat?, m.toNat?, (nats? rest).bind npairs with
@@ -292,7 +406,7 @@ def stepLine (st : St) (ws : List String) : St × String :=
   | _ =>
     match st with
     | .none => (st, "bad-op")
-    | .grid g hex nag nc hc => gridLine g hex nag nc hc ws
+    | .grid g hex nag nc hc ls => gridLine g hex nag nc hc ls ws
     | .net t nag => netLine t nag ws
 
 partial def loop (h : IO.FS.Stream) (out : IO.FS.Stream) (st : St) : IO Unit := do
